@@ -153,6 +153,9 @@ def run(tier):
         ("two declarators sharing specifiers, <=2 wrappers each",
          dict(deriv=2, decls=2, ctxs=["file", "block", "forinit", "member", "typedef"], bases=["int", "sdef", "edef", "tdef"],
               squals='{<<>>, <<"const">>}', dims=["3"], params=["int_p"], ptrquals='{<<>>, <<"const">>}', parens=False)),
+        ("_Atomic(type-name) specifiers, one and two declarators",
+         dict(deriv=2, decls=2, bases=["atomic_int", "atomic_T", "atomic_ptr"], squals='{<<>>, <<"const">>}',
+              dims=["3", "none"], params=["void", "int_p"], ptrquals='{<<>>, <<"const">>}')),
         ("initializers and bit-fields",
          dict(deriv=1, decls=2, ctxs=["file", "block", "forinit", "member"], bases=["int", "sref"],
               inits=["none", "scalar", "braces", "trailing", "empty", "desig", "nested", "bits"], dims=["3", "none"],
